@@ -4,6 +4,29 @@ from engine.analysis.facts import *
 from engine.analysis.flow import *
 
 
+def ret_locals(b):
+    """the return place and every local whose value is moved / copied into it (`_0 = move _t`: the return slot of a helper that was
+    inlined, a result built in a temporary)"""
+    out = {0}
+    ch = True
+    while ch:
+        ch = False
+        for bb, i, s in b.all_stmts():
+            if i == "term" or s["p"].get("p") or s["p"]["l"] not in out or s["r"]["k"] != "use":
+                continue
+            pl = op_place(s["r"].get("o"))
+            if pl and not pl.get("p") and pl["l"] not in out:
+                out.add(pl["l"])
+                ch = True
+    return out
+
+
+def ret_aggs(b, variant):
+    """(bb, stmt) of every aggregate `variant(..)` that is (or flows whole into) the function's result"""
+    rl = ret_locals(b)
+    return [(bb, s) for bb, i, s in b.all_stmts() if i != "term" and not s["p"].get("p") and s["p"]["l"] in rl and s["r"]["k"] == "agg" and s["r"].get("variant") == variant]
+
+
 def key_of(body, extra=None):
     return body.id if extra is None else f"{body.id}:{extra}"
 
